@@ -220,6 +220,38 @@ def bounded(b):
                     bad = "%s(%d) = %r, expected %r (measure containing t, pickup counted as a full bar)" % (mapname, t, g, want)
                     break
             b.case("maps/%s_measure_containing_t" % mapname, bad is None, case, bad or "")
+        # every way of passing the positions: numpy integer scalars answer like Python integers, lists / tuples / arrays give one row per position
+        inside = [t for t in range(max(lo, meas[0][0]) if meas else lo, hi)]
+        for mapname in ("time_signature_map", "key_signature_map", "measure_map", "measure_number_map", "metrical_position_map", "clef_map"):
+            try:
+                f = getattr(part, mapname)
+                ref = [np.asarray(f(t)) for t in inside]
+            except Exception:
+                continue
+            if not inside:
+                continue
+            bad = None
+            for t, r in zip(inside[:6] + inside[-2:], ref[:6] + ref[-2:]):
+                for form, arg in (("np.int64", np.int64(t)), ("np.int32", np.int32(t))):
+                    try:
+                        g = np.asarray(f(arg))
+                    except Exception as e:
+                        bad = bad or "%s(%s(%d)) raised %s" % (mapname, form, t, type(e).__name__)
+                        continue
+                    if g.shape != r.shape or not np.array_equal(np.nan_to_num(g.astype(float), nan=-99), np.nan_to_num(r.astype(float), nan=-99)):
+                        bad = bad or "%s(%s(%d)) has shape %r value %r, the Python integer gives shape %r value %r" % (mapname, form, t, g.shape, g.tolist(), r.shape, r.tolist())
+            if mapname != "clef_map":
+                for form, arg in (("list", list(inside)), ("tuple", tuple(inside)), ("int array", np.array(inside)), ("two-element list", list(inside[:2])), ("one-element array", np.array(inside[:1]))):
+                    k = len(arg)
+                    try:
+                        g = np.asarray(f(arg))
+                    except Exception as e:
+                        bad = bad or "%s(%s) raised %s" % (mapname, form, type(e).__name__)
+                        continue
+                    want = np.array([x for x in ref[:k]])
+                    if g.shape != want.shape or not np.array_equal(np.nan_to_num(g.astype(float), nan=-99), np.nan_to_num(want.astype(float), nan=-99)):
+                        bad = bad or "%s(%s of %d positions) has shape %r, one row per position would be %r%s" % (mapname, form, k, g.shape, want.shape, "" if g.shape != want.shape else "; values differ")
+            b.case("maps/%s_all_ways_of_passing_positions_agree" % mapname, bad is None, case, bad or "")
         # note array columns agree with the maps
         ok, na = b.guard("maps/note_array_columns_no_exception", case, lambda: part.note_array(include_time_signature=True, include_key_signature=True, include_metrical_position=True))
         if ok and len(na):
